@@ -132,7 +132,7 @@ def gen_weighted_case(rng, directed=False):
             'poly': coeffs, 'polarised': False}
 
 
-def gen_perfect_case(rng, big, force=None):
+def gen_perfect_case(rng, big, force=None, user=None):
     hp = _hp()
     if force == 'weighted' or (force is None and rng.random() < 0.08):
         return gen_weighted_case(rng)
@@ -203,10 +203,27 @@ def gen_perfect_case(rng, big, force=None):
     if all(c == 0 for row in coeffs for c in row):
         coeffs[0][0] = 1.0
     pol = bool(rng.random() < 0.15)
-    return {'part': 'B', 'shape_kind': shape_kind, 'dims': [nx, ny], 'delta': [dx, dy], 'zero': [zx, zy], 'order': order,
+    case = {'part': 'B', 'shape_kind': shape_kind, 'dims': [nx, ny], 'delta': [dx, dy], 'zero': [zx, zy], 'order': order,
             'ap_kind': kind, 'ap_re': [float(v) for v in ap.real], 'ap_im': [float(v) for v in ap.imag],
             'fields': [{'name': nm, 're': [float(v) for v in f.real], 'im': [float(v) for v in f.imag]} for nm, f in fields],
             'poly': coeffs, 'polarised': pol}
+    if user or (user is None and rng.random() < 0.2):
+        case['user_coeffs'] = gen_user_coeffs(rng, order)
+    return case
+
+
+def gen_user_coeffs(rng, order):
+    """`coeffs=` of the constructor (partial suppression): one per mode, h(h+1)/2 of them, dyadic in [0, 2]."""
+    h = order // 2
+    k = h * (h + 1) // 2
+    kind = str(rng.choice(['constant', 'prefix', 'random', 'random']))
+    if kind == 'constant':
+        return {'kind': kind, 'c': [float(rng.integers(0, 9)) / 4.0] * k}
+    if kind == 'prefix':
+        h2 = int(rng.integers(0, h + 1))
+        m = h2 * (h2 + 1) // 2
+        return {'kind': kind, 'h2': h2, 'c': [1.0] * m + [0.0] * (k - m)}
+    return {'kind': kind, 'c': [float(v) / 4.0 for v in rng.integers(0, 9, k)]}
 
 
 def run_perfect_case(case):
@@ -225,8 +242,11 @@ def run_perfect_case(case):
     small = 'npix<modes ' if grid.size < nmodes else ''
     bad = []
     obs = {'x': [float(v) for v in grid.x], 'y': [float(v) for v in grid.y], 'outs': [], 'status': 'ok'}
+    uc = case.get('user_coeffs')
+    cu = None if uc is None else np.array(uc['c'], dtype=float)
+    full = cu is None or bool(np.all(cu == 1))      # complete suppression: the four clauses of the property apply
     try:
-        c = hp.PerfectCoronagraph(ap, order)
+        c = hp.PerfectCoronagraph(ap, order) if uc is None else hp.PerfectCoronagraph(ap, coeffs=list(uc['c']))
     except Exception as e:  # noqa
         obs['status'] = _errkind(e)
         bad.append(('perfect %s%sraises' % (cls, small), 'PerfectCoronagraph(%dx%d %s aperture, order=%d) raised %s: %s' % (nx, ny, case['ap_kind'], order, type(e).__name__, str(e)[:80])))
@@ -240,6 +260,32 @@ def run_perfect_case(case):
     poly = sum(case['poly'][i][j] * grid.x ** j * grid.y ** (i - j) for i in range(h) for j in range(i + 1))
     ins = [('flat', np.asarray(ap, dtype=complex)), ('poly', np.asarray(ap * poly, dtype=complex))]
     ins += [(f['name'], np.array(f['re']) + 1j * np.array(f['im'])) for f in case['fields']]
+    if uc is not None:
+        # partial suppression: the l-th orthogonalised mode must come out multiplied by 1 - coeffs[l]
+        ins += [('Tcol%d' % l, np.asarray(obs['T'][:, l], dtype=complex)) for l in range(min(obs['T'].shape[1], 4))]
+        if c.transformation.shape[1] != min(nmodes, grid.size) or len(c.coeffs) != c.transformation.shape[1]:
+            bad.append(('perfect user-coeffs mode-count', '%d coefficients gave %d modes and %d coefficients in use (expected %d)' % (len(uc['c']), c.transformation.shape[1], len(c.coeffs), min(nmodes, grid.size))))
+        ref_obj = None
+        if uc['kind'] == 'constant':
+            ref_obj, alpha = hp.PerfectCoronagraph(ap, order), cu[0]
+        elif uc['kind'] == 'prefix':
+            # ones on the modes of a lower order = the coronagraph of that order, provided QR's leading columns span
+            # the leading modes, i.e. the modes are independent on this sampled aperture
+            A = np.array([np.asarray(ap) * grid.x ** j * grid.y ** (i - j) for i in range(h) for j in range(i + 1)]).T
+            sv = np.linalg.svd(A, compute_uv=False) if A.size else np.zeros(1)
+            if grid.size >= nmodes and sv.min() > 1e-6 * max(sv.max(), 1e-300):
+                ref_obj, alpha = (hp.PerfectCoronagraph(ap, 2 * uc['h2']), 1.0) if uc['h2'] >= 1 else (None, 0.0)
+            else:
+                uc = dict(uc, kind='prefix-dependent')
+    # the matrix the object reports for itself
+    try:
+        obs['M'] = np.array(c.get_transformation_matrix_forward())
+        Mb = np.array(c.get_transformation_matrix_backward())
+        if obs['M'].shape != (grid.size, grid.size) or not np.array_equal(obs['M'], Mb):
+            bad.append(('perfect %stransformation-matrix' % cls, 'get_transformation_matrix_forward() has shape %s / differs from ..._backward()' % (obs['M'].shape,)))
+            del obs['M']
+    except Exception as e:  # noqa
+        bad.append(('perfect %s%stransformation-matrix raises' % (cls, small), 'PerfectCoronagraph(%dx%d %s aperture, order=%d).get_transformation_matrix_forward() raised %s: %s' % (nx, ny, case['ap_kind'], order, type(e).__name__, str(e)[:90])))
 
     def scalar(E):
         wf = hp.Wavefront(hp.Field(E.copy(), grid), 1)
@@ -272,6 +318,28 @@ def run_perfect_case(case):
             bad.append(('perfect %s%sraises' % (cls, small), 'PerfectCoronagraph(%dx%d %s aperture, order=%d).forward raised %s: %s' % (nx, ny, case['ap_kind'], order, type(e).__name__, str(e)[:80])))
             return obs, bad
         obs['outs'].append((name, E, o1))
+        if 'M' in obs and np.abs(obs['M'] @ E - o1).max() > TOL * scale:
+            bad.append(('perfect %stransformation-matrix' % cls, 'get_transformation_matrix_forward() @ E differs from forward(E) by %.3g (%dx%d %s aperture, order %d)' % (np.abs(obs['M'] @ E - o1).max(), nx, ny, case['ap_kind'], order)))
+        if name == 'flat':
+            ob = np.asarray(c.backward(hp.Wavefront(hp.Field(E.copy(), grid), 1)).electric_field)
+            if not np.array_equal(ob, o1):
+                bad.append(('perfect backward', 'backward differs from forward (documented to behave the same)'))
+        if name.startswith('Tcol'):
+            l = int(name[4:])
+            if np.abs(o1 - (1 - c.coeffs[l]) * E).max() > TOL * scale:
+                bad.append(('perfect %spartial-suppression' % cls, 'orthogonalised mode %d with coefficient %g came out with residual %.3g from (1-c)*mode' % (l, c.coeffs[l], np.abs(o1 - (1 - c.coeffs[l]) * E).max())))
+        if uc is not None and uc['kind'] in ('constant', 'prefix'):
+            # independent reference: a constant coefficient a gives (1-a) E + a P(E); ones on the modes of a lower
+            # order give the coronagraph of that order; all zero passes everything
+            want = E if ref_obj is None else (1 - alpha) * E + alpha * np.asarray(ref_obj.forward(hp.Wavefront(hp.Field(E.copy(), grid), 1)).electric_field)
+            if np.abs(o1 - want).max() > TOL * scale:
+                bad.append(('perfect %suser-coeffs %s' % (cls, uc['kind']), 'coeffs=%s on %dx%d %s aperture: differs from the reference built from coeffs=None objects by %.3g' % (uc['c'][:6], nx, ny, case['ap_kind'], np.abs(o1 - want).max())))
+        if not full:
+            pin, pout = float((np.abs(E) ** 2).sum()), float((np.abs(o1) ** 2).sum())
+            obs['tp'].append((float(hp.Wavefront(hp.Field(E.copy(), grid), 1).total_power), float(hp.Wavefront(hp.Field(o1.copy(), grid), 1).total_power)))
+            if not weighted and pout > pin * (1 + 1e-9) + 1e-30:
+                bad.append(('perfect %s%spower' % (cls, small), 'power grew from %.6g to %.6g with coefficients in [0, 2] (%dx%d %s aperture, order %d)' % (pin, pout, nx, ny, case['ap_kind'], order)))
+            continue
         if name in ('flat', 'poly') and np.abs(o1).max() > TOL * scale:
             bad.append(('perfect %s%s%s' % (cls, small, name), '%s wavefront over a %dx%d %s aperture, order %d: residual %.3g (relative to %.3g)' % (name, nx, ny, case['ap_kind'], order, np.abs(o1).max(), scale)))
         if np.abs(o2 - o1).max() > TOL * scale:
@@ -318,6 +386,9 @@ def pmat_lines(case, obs):
     lines = ['C09 pmat %s %s %s %s %s' % (rat_lists(Tr), rat_lists(Tir), rat_list(cf), rat_list(w), rat(mu))]
     for a in aps:
         lines.append('C09 pmodes %d %s %s %s' % (case['order'], rat_list(a), rat_list(x), rat_list(y)))
+    want_matrix = 'M' in obs and Tr.shape[0] <= 40
+    if want_matrix:
+        lines.append('C09 pmatrix')
     per = []
     for name, E, o1 in obs['outs']:
         if cplx:
@@ -327,7 +398,7 @@ def pmat_lines(case, obs):
             lines.append('C09 papply %s' % rat_list(E.real))
             lines.append('C09 papply %s' % rat_list(E.imag))
             per.append(2)
-    return lines, {'cplx': cplx, 'nap': len(aps), 'per': per}
+    return lines, {'cplx': cplx, 'nap': len(aps), 'per': per, 'pmatrix': want_matrix, 'full': bool(np.all(cf == 1))}
 
 
 def check_pmat(ctx, case, obs, resp, meta):
@@ -350,9 +421,22 @@ def check_pmat(ctx, case, obs, resp, meta):
         mm = dict(t.split('=') for t in resp[1 + k].split()[1:])
         nulls, scale = float(Fraction(mm['nulls'])), float(Fraction(mm['scale']))
         ctx.traces_validated += 1
-        if not nulls <= TOL * max(1.0, scale):
+        if not meta['full']:
+            ctx.count('B:pmat:partial-coefficients')       # NullsModes is a hypothesis of the complete-suppression theorems only
+        elif not nulls <= TOL * max(1.0, scale):
             ctx.disagree('C09 pmat hypothesis', {'case': short, 'what': 'a mode aperture*x^j*y^k is not mapped to zero (span of the modes not inside range T)', 'residual': nulls})
     pos = 1 + meta['nap']
+    if meta['pmatrix']:
+        # `perfectMatrix` (theorem perfectMatrix_apply) against what get_transformation_matrix_forward() returned
+        Mm = np.array([[float(v) for v in parse_rat_list(r)] for r in resp[pos].split()[1].split(';')])
+        Mr = _realify(obs['M']) if meta['cplx'] else np.asarray(obs['M']).real
+        pos += 1
+        ctx.traces_validated += 1
+        ctx.count('B:pmatrix')
+        if Mm.shape != Mr.shape or np.abs(Mm - Mr).max() > TOL * max(1.0, float(np.abs(Mr).max())):
+            ctx.disagree('C09 perfectMatrix', {'case': short, 'what': 'get_transformation_matrix_forward() differs from the model matrix I - T diag(c) T+',
+                                               'max_abs_diff': float(np.abs(Mm - Mr).max()) if Mm.shape == Mr.shape else 'shape'})
+    cf = np.asarray(obs['coeffs'], dtype=float)
     for (name, E, o1), cnt, (tin, tout) in zip(obs['outs'], meta['per'], obs['tp']):
         rs = resp[pos:pos + cnt]
         pos += cnt
@@ -370,11 +454,18 @@ def check_pmat(ctx, case, obs, resp, meta):
         if np.abs(ref - o1).max() > TOL * scale:
             ctx.disagree('C09 perfectMat', {'case': short, 'field': name, 'max_abs_diff': float(np.abs(ref - o1).max())})
             return
+        if name.startswith('Tcol') and leftinv <= 1e-9:
+            # conclusion of perfectMat_partial_suppression on the model's own output
+            l = int(name[4:])
+            ctx.traces_validated += 1
+            if np.abs(ref - (1 - cf[l]) * E).max() > TOL * scale:
+                ctx.disagree('C09 partial suppression', {'case': short, 'mode': l, 'coefficient': float(cf[l]), 'max_abs_diff': float(np.abs(ref - (1 - cf[l]) * E).max())})
+                return
         # powerW of the model is total_power of the real wavefronts
         if abs(float(pin) - tin) > TOL * max(1.0, tin) or abs(float(pout) - tout) > TOL * max(1.0, tin):
             ctx.disagree('C09 powerW', {'case': short, 'field': name, 'model': [float(pin), float(pout)], 'impl': [tin, tout]})
             return
-        if hyp_ok and pout > pin * (1 + Fraction(1, 10 ** 9)):
+        if hyp_ok and meta['full'] and pout > pin * (1 + Fraction(1, 10 ** 9)):
             ctx.disagree('C09 perfectMat', {'case': short, 'field': name, 'what': 'hypotheses hold but the model power grows', 'pin': float(pin), 'pout': float(pout)})
             return
 
@@ -384,7 +475,8 @@ def part_b(ctx):
     cases = [gen_weighted_case(ctx.rng, directed=True)]
     forced = ['circular', 'obstructed', 'rectangular', 'grey', 'sparse', 'zero', 'full', 'complex', 'weighted', 'weighted']
     for k in range(n):
-        cases.append(gen_perfect_case(ctx.rng, big=(ctx.tier == 'thorough' and k % 4 == 0), force=forced[k] if k < len(forced) else None))
+        cases.append(gen_perfect_case(ctx.rng, big=(ctx.tier == 'thorough' and k % 4 == 0), force=forced[k] if k < len(forced) else None,
+                                      user=(True if k in (0, 1, 7) else False if k < len(forced) else None)))
     lines, plan = [], []
     plines, pplan = [], []
     worst_weighted = 1.0
@@ -402,6 +494,8 @@ def part_b(ctx):
         ctx.count('B:parity:%s%s' % ('e' if nx % 2 == 0 else 'o', 'e' if ny % 2 == 0 else 'o'))
         if case.get('polarised'):
             ctx.count('B:polarised')
+        if case.get('user_coeffs'):
+            ctx.count('B:user-coeffs:' + case['user_coeffs']['kind'])
         for name, tin, tout in obs.get('weighted_growth', []):
             ctx.count('B:weighted:total_power-increased')
             worst_weighted = max(worst_weighted, tout / tin)
@@ -417,8 +511,8 @@ def part_b(ctx):
                 ctx.count('B:pmat:' + ('complex' if meta['cplx'] else 'weighted' if case.get('grid') else 'real'))
             else:
                 ctx.count('B:pmat:skipped-large')
-        if is_complex:
-            continue        # complex modes are outside the Gram-Schmidt model: oracle + perfectMat only
+        if is_complex or case.get('user_coeffs'):
+            continue        # complex modes / user coefficients are outside the Gram-Schmidt model: oracle + perfectMat only
         base = len(lines)
         lines.append('C09 setup %d %s %s %s' % (case['order'], rat_list(case['ap_re']), rat_list(obs['x']), rat_list(obs['y'])))
         for name, E, o1 in obs['outs']:
@@ -1086,6 +1180,9 @@ def run_msalg_case(case):
             wins.append(np.zeros(g.size))
         M = raws[i] * (1 - wins[i]) if i != L - 1 else raws[i].copy()
         for j in range(i):
+            if (j, i) not in world.R:
+                bad.append(('multiscale mask-recursion', 'level %d never resamples the mask of level %d (nothing subtracted for it)' % (i, j)))
+                world.R[(j, i)] = np.zeros((ds[i], ds[j]), dtype=complex)
             M = M - world.R[(j, i)] @ Ms[j]
         Ms.append(M)
     want = sum(world.ops(i)[1] @ (Ms[i] * (world.ops(i)[0] @ E)) for i in range(L))
